@@ -29,6 +29,9 @@
 (*   orientLink    the stored orientation of a residue edge decides the link direction     *)
 (*   oncePerGroup  a link is applied at most once per SET of residues: of the two           *)
 (*                 orientations of a `*` link only the one met first survives (seed-C13-2)  *)
+(*   nameCache     per link, residue-NAME combinations for which the link atoms were not   *)
+(*                 found are remembered and skipped (same-named residues can differ by a   *)
+(*                 residue-level attribute: seed3-C13-1)                                   *)
 (*   dfsTreeFrag   fragments are the components over depth-first TREE edges only  (F31, repaired) *)
 (*   fragIdOrder   block-copy correspondences are stored in merge order but looked up by an  *)
 (*                 id assigned in component-iteration order                       (F32, repaired) *)
@@ -59,7 +62,7 @@ LoadTab == LoadUpTo(Len(FFs))
 
 S0 == [pc |-> "load", L |-> L0, bx |-> <<>>, frags |-> <<>>, fid |-> <<>>, molN |-> 0, ord |-> <<>>, k |-> 1,
        M |-> [atoms |-> <<>>, gattr |-> <<>>, ints |-> {}, edges |-> {}, extra |-> <<>>, rm |-> {}],
-       corr |-> <<>>, added |-> {}, li |-> 1, todo |-> {}, grp |-> {}, orient |-> <<>>, err |-> "", fired |-> {}, out |-> ErrOut(""), exp |-> ErrOut("")]
+       corr |-> <<>>, added |-> {}, li |-> 1, todo |-> {}, grp |-> {}, noat |-> {}, orient |-> <<>>, err |-> "", fired |-> {}, out |-> ErrOut(""), exp |-> ErrOut("")]
 \* exp: the declared result of the case, evaluated once and carried along
 Init == case \in Cases /\ s = [S0 EXCEPT !.exp = PResult(case)]
 
@@ -151,7 +154,7 @@ BeginLink == /\ s.pc = "begin"
              /\ IF s.li > Len(s.L.l)
                 THEN s' = [s EXCEPT !.pc = "write"]
                 ELSE \E o \in (IF Dev.orientLink THEN {f \in [case.E -> Pos(case)] : \A e \in case.E : f[e] \in e} ELSE {<<>>}) :
-                       s' = [s EXCEPT !.pc = "try", !.grp = {},
+                       s' = [s EXCEPT !.pc = "try", !.grp = {}, !.noat = {},
                                       !.orient = IF s.li = 1 THEN o ELSE @,
                                       !.todo = IF Prefilter(s.M, CurLink) THEN ResMatches(case, CurLink) ELSE {}]
              /\ UNCHANGED case
@@ -161,9 +164,12 @@ TryMatch(phi) ==
   /\ LET l == CurLink
          iv == ImgVec(case, s.M, l, phi)
          rng == {phi[i] : i \in DOMAIN phi}
-         skip == Dev.oncePerGroup /\ OrientOK(l, phi) /\ rng \in s.grp
-         ok == OrientOK(l, phi) /\ ~skip /\ \A a \in DOMAIN l.atoms : iv[a] # 0
-     IN s' = IF ~ok THEN [s EXCEPT !.todo = @ \ {phi}, !.grp = IF OrientOK(l, phi) THEN @ \cup {rng} ELSE @]
+         nkey == {<<i, case.rn[phi[i]]>> : i \in DOMAIN phi}
+         skip == OrientOK(l, phi) /\ ((Dev.oncePerGroup /\ rng \in s.grp) \/ (Dev.nameCache /\ nkey \in s.noat))
+         found == \A a \in DOMAIN l.atoms : iv[a] # 0
+         ok == OrientOK(l, phi) /\ ~skip /\ found
+     IN s' = IF ~ok THEN [s EXCEPT !.todo = @ \ {phi}, !.grp = IF OrientOK(l, phi) THEN @ \cup {rng} ELSE @,
+                                   !.noat = IF OrientOK(l, phi) /\ ~skip /\ ~found THEN @ \cup {nkey} ELSE @]
              ELSE [s EXCEPT !.todo = IF Dev.firstMatchOnly THEN {} ELSE @ \ {phi}, !.grp = @ \cup {rng},
                             !.M.rm = @ \cup DelImg(l, iv),
                             !.M.atoms = [g \in DOMAIN s.M.atoms |-> IF \E r \in RepImg(l, s.li, iv) : r.g = g
